@@ -251,7 +251,7 @@ Qed.
 Definition entry_ok (reg : list recipe) (o : Z) (hv : list item * val) : Prop :=
   exists r0 st0,
     In r0 reg /\ memZ o (r_outs r0) = true /\ shape r0 (fst hv)
-    /\ (r_mkind r0 = 0 ->
+    /\ (r_mkind r0 = 0 \/ r_mkind r0 = 2 ->
         snd hv = Comp (r_meth r0) o
                    (map (view_input AF reg st0 r0 (fst hv)) (r_uses r0))).
 
@@ -280,6 +280,9 @@ Proof.
 Qed.
 
 Lemma RF_eq : RF = S (S 6).
+Proof. reflexivity. Qed.
+
+Lemma AF_eq : AF = S 23.
 Proof. reflexivity. Qed.
 
 Lemma read_S : forall n reg st f,
@@ -403,15 +406,14 @@ Proof.
     destruct Ho as [Ho|[Ho ->]]; [now apply HI1|].
     exists r, st1. split; [exact Hin|]. split; [now apply in_memZ|].
     split; [exact Hshape|]. cbn [fst snd].
-    intros H0. rewrite H0 in E1. discriminate E1.
+    intros [H0|H0]; rewrite H0 in E1; discriminate E1.
   - destruct (r_mkind r =? 2) eqn:E2.
     + apply Z.eqb_eq in E2.
       destruct (ctc_missing AF reg st1); [exact HI1|].
       intros o hv Ho. cbn [fst s_cache] in Ho. apply store_in in Ho.
       destruct Ho as [Ho|[Ho ->]]; [now apply HI1|].
       exists r, st1. split; [exact Hin|]. split; [now apply in_memZ|].
-      split; [exact Hshape|]. cbn [fst snd].
-      intros H0. rewrite H0 in E2. discriminate E2.
+      split; [exact Hshape|]. cbn [fst snd]. intros _. reflexivity.
     + intros o hv Ho. cbn [fst s_cache] in Ho. apply store_in in Ho.
       destruct Ho as [Ho|[Ho ->]]; [now apply HI1|].
       exists r, st1. split; [exact Hin|]. split; [now apply in_memZ|].
@@ -502,12 +504,49 @@ Proof.
   rewrite Hc in H. exact H.
 Qed.
 
+(* a generic method, or compute_ctc with all six matrix elements required *)
+Definition plain_method (r : recipe) : bool :=
+  (r_mkind r =? 0)
+  || ((r_mkind r =? 2) && forallb (fun k => memZ k (r_keys r)) k_ct).
+
+Lemma avail_keys : forall n reg st r,
+  avail (S n) reg st r = true ->
+  forallb (fun k => has k (b_cfg (s_base st))) (r_keys r) = true.
+Proof.
+  intros n reg st r H. cbn [avail] in H.
+  apply andb_prop in H. destruct H as [H _].
+  apply andb_prop in H. destruct H as [H _].
+  apply andb_prop in H. destruct H as [H _]. exact H.
+Qed.
+
+Lemma select_keys : forall reg st f r,
+  select AF reg st f = Some r ->
+  forallb (fun k => has k (b_cfg (s_base st))) (r_keys r) = true.
+Proof.
+  intros reg st f r H. unfold select in H. apply find_some in H.
+  destruct H as [_ H]. apply andb_prop in H. destruct H as [_ H].
+  rewrite AF_eq in H. now apply avail_keys in H.
+Qed.
+
+Lemma ctc_not_missing : forall reg st st' r,
+  s_base st' = s_base st ->
+  forallb (fun k => memZ k (r_keys r)) k_ct = true ->
+  forallb (fun k => has k (b_cfg (s_base st))) (r_keys r) = true ->
+  ctc_missing AF reg st' = false.
+Proof.
+  intros reg st st' r Hb Hall Hkeys. unfold ctc_missing. rewrite Hb.
+  assert (H : forallb (fun k => has k (b_cfg (s_base st))) k_ct = true).
+  { rewrite forallb_forall in *. intros k Hk. apply Hkeys.
+    apply memZ_in. now apply Hall. }
+  rewrite H. cbn [negb]. now rewrite andb_false_r.
+Qed.
+
 Theorem read_coherent_flat : forall reg st f,
   collide_ok reg = true -> Inv reg st ->
   select AF reg st f = select AF reg (clear st) f ->
   (forall r, select AF reg st f = Some r ->
      forallb (in_base (s_base st)) (r_feats r) = true
-     /\ uses_covered r = true /\ r_mkind r = 0
+     /\ uses_covered r = true /\ plain_method r = true
      /\ (r_rf r =? 2) = false /\ r_extra r = []) ->
   snd (read RF reg st f) = snd (read RF reg (clear st) f).
 Proof.
@@ -523,9 +562,30 @@ Proof.
     by exact Hflat.
   rewrite (fold_flat reg 6 (r_feats r) (clear st) [] Hflat').
   cbv zeta. cbn [clear s_base s_cache assoc]. rewrite Hrf.
-  assert (Hm1 : (r_mkind r =? 1) = false) by (rewrite Hmk; reflexivity).
-  assert (Hm2 : (r_mkind r =? 2) = false) by (rewrite Hmk; reflexivity).
-  rewrite Hm1, Hm2.
+  pose proof (select_keys _ _ _ _ Es) as Hkeys.
+  assert (Hm1 : (r_mkind r =? 1) = false).
+  { unfold plain_method in Hmk. apply orb_prop in Hmk.
+    destruct Hmk as [H|H]; [|apply andb_prop in H; destruct H as [H _]];
+      apply Z.eqb_eq in H; rewrite H; reflexivity. }
+  assert (Hm02 : r_mkind r = 0 \/ r_mkind r = 2).
+  { unfold plain_method in Hmk. apply orb_prop in Hmk.
+    destruct Hmk as [H|H]; [left|right; apply andb_prop in H;
+                                 destruct H as [H _]];
+      now apply Z.eqb_eq in H. }
+  assert (Hplain : forall s, s_base s = s_base st -> forall view : list (option val),
+     (if r_mkind r =? 2
+      then if ctc_missing AF reg s then inr e_ctmiss
+           else inl (@nil (option val), r_uses r)
+      else inl ([], r_uses r))
+     = (inl ([], r_uses r) : (list (option val) * list input) + Z)).
+  { intros s Hs _. destruct (r_mkind r =? 2) eqn:E2; [|reflexivity].
+    unfold plain_method in Hmk. rewrite E2 in Hmk.
+    assert (E0 : (r_mkind r =? 0) = false).
+    { apply Z.eqb_eq in E2. rewrite E2. reflexivity. }
+    rewrite E0 in Hmk. cbn [orb andb] in Hmk.
+    now rewrite (ctc_not_missing reg st s r Hs Hmk Hkeys). }
+  rewrite Hm1.
+  rewrite (Hplain st eq_refl []), (Hplain (clear st) eq_refl []).
   set (items := map ItFeat ([] ++ map (raw_or0 (s_base st)) (r_feats r)) ++
          map (fun k => ItCfg k match cfg (s_base st) k with
                                | Some v => v | None => 0 end) (r_keys r) ++ []).
@@ -556,7 +616,7 @@ Proof.
       apply andb_prop in Hsame. destruct Hsame as [Hf He].
       apply zlist_eqb_eq in Hf. apply inputs_eqb_eq in He.
       apply inputs_eqb_eq in Hu. apply Z.eqb_eq in Hme. apply Z.eqb_eq in Hk.
-      rewrite Hv by congruence. rewrite Hme, Hu. f_equal.
+      rewrite Hv by (rewrite Hk; exact Hm02). rewrite Hme, Hu. f_equal.
       apply map_ext_in. intros u Hu'.
       unfold view_input. rewrite (from_items_ext r0 r items u Hf He).
       assert (Hc : covered r u = true).
@@ -574,7 +634,7 @@ Theorem history_read_coherent : forall reg b ops f,
   select AF reg st f = select AF reg (clear st) f ->
   (forall r, select AF reg st f = Some r ->
      forallb (in_base (s_base st)) (r_feats r) = true
-     /\ uses_covered r = true /\ r_mkind r = 0
+     /\ uses_covered r = true /\ plain_method r = true
      /\ (r_rf r =? 2) = false /\ r_extra r = []) ->
   snd (read RF reg st f) = snd (read RF reg (clear st) f).
 Proof.
